@@ -138,6 +138,8 @@ type NetConfig struct {
 	DupPct                 int // unary request duplication
 	SlowPct                int // percent of messages that get a long delay
 	SlowMax                time.Duration
+	LateSendPct            int // percent of stream sends that return to the caller only after a delay (the message itself is on its way)
+	LateSendMax            time.Duration
 }
 
 // Net is the simulated network plus the dispatcher.
@@ -291,6 +293,20 @@ func (n *Net) BreakStreams(a, b string) int {
 }
 
 // ---------------------------------------------------------------- sending
+
+// lateReturn: a Send hands its message to the transport and may return to the caller any time later (the
+// sender is descheduled, flow control); the answer can be on its way back before the caller's next
+// statement runs.  Decided per (sender, method, payload) from the run's seed.
+func (n *Net) lateReturn(src, method string, payload []byte) {
+	if n.cfg.LateSendPct <= 0 || n.cfg.LateSendMax <= 0 {
+		return
+	}
+	h := H(n.r.Seed, "late-send", src, method, payload)
+	if int(h%100) < n.cfg.LateSendPct {
+		n.r.Count("sends_returning_late", 1)
+		time.Sleep(time.Duration((h >> 8) % uint64(n.cfg.LateSendMax)))
+	}
+}
 
 func (n *Net) latency(id string) time.Duration {
 	h := H(n.r.Seed, "lat", id)
@@ -1021,6 +1037,7 @@ func (c *clientStream) SendMsg(m any) error {
 		return status.Error(codes.Internal, err.Error())
 	}
 	s.net.send(&message{kind: mStreamData, src: s.client, stream: s, toServer: true, method: s.method, payload: b})
+	s.net.lateReturn(epName(s.client), s.method, b)
 	return nil
 }
 func (c *clientStream) RecvMsg(m any) error {
@@ -1066,6 +1083,7 @@ func (ss *serverStream) SendMsg(m any) error {
 		return status.Error(codes.Internal, err.Error())
 	}
 	s.net.send(&message{kind: mStreamData, src: ss.e, stream: s, toServer: false, method: s.method, payload: b})
+	s.net.lateReturn(epName(ss.e), s.method, b)
 	return nil
 }
 func (ss *serverStream) RecvMsg(m any) error {
